@@ -244,6 +244,20 @@ def laws(rep, rnd, tier, pools, impl, I):
         if out != ("val", want):
             rep.violation("input", "%s gives %s, ascending order / min / max by the stated order give %s" % (prog, out, want),
                           check="program", program=prog, want=want)
+    # min / max with a key: the element whose key is least / greatest under <, the first of several
+    keyfs = [("fn(x) x * x", lambda x: x * x), ("fn(x) 0 - x", lambda x: -x), ("fn(x) x % 3", lambda x: x % 3), ("fn(x) x", lambda x: x),
+             ("fn(x) [x % 2, x]", lambda x: [x % 2, x])]
+    for _ in range(300 if tier != "thorough" else 3000):
+        lst = [rnd.choice([-7, -2, 0, 3, 5, -3, 2, 10, -10]) for _ in range(rnd.randint(1, 6))]
+        ks, kf = rnd.choice(keyfs)
+        key = functools.cmp_to_key(lambda x, y: py_cmp(kf(x), kf(y)))
+        prog = "[max(%s, key = %s), min(%s, key = %s)]" % (gal.src(lst), ks, gal.src(lst), ks)
+        out = impl.run_src(I, prog)
+        want = datagen.canon([max(lst, key=key), min(lst, key=key)])
+        n += 1
+        rep.nontriv(prog)
+        if out != ("val", want):
+            rep.violation("input", "%s gives %s, the elements with the greatest / least key are %s" % (prog, out, want), check="minmax-key", program=prog, want=want)
     # NaN (recorded finding C07-F3: a NaN decimal is neither less than, equal to nor greater than a number)
     prog = "def n = decimal('nan'); [n < 1 or n == 1 or 1 < n, n > 1 and 1 > n]"
     out = impl.run_src(I, prog)
